@@ -880,6 +880,39 @@ func (fr *frame) loopEnv(li *loopInfo, st *State, phiVals map[*ssa.Phi]TV) *Env 
 				}
 			}
 		}
+		if name == "$range" {
+			// the slice (or string) this range loop iterates over: its value was taken once,
+			// before the loop, and does not follow later assignments to the ranged variable
+			for _, in := range li.header.Instrs {
+				p, ok := in.(*ssa.Phi)
+				if !ok {
+					break
+				}
+				if p.Comment != "rangeindex" {
+					continue
+				}
+				for _, ref := range *p.Referrers() {
+					inc, ok := ref.(*ssa.BinOp)
+					if !ok || inc.Op != token.ADD {
+						continue
+					}
+					for _, r2 := range *inc.Referrers() {
+						cmp, ok := r2.(*ssa.BinOp)
+						if !ok || cmp.Op != token.LSS {
+							continue
+						}
+						if call, ok := cmp.Y.(*ssa.Call); ok {
+							if b, ok := call.Call.Value.(*ssa.Builtin); ok && b.Name() == "len" && len(call.Call.Args) == 1 {
+								if v, ok := fr.vals[call.Call.Args[0]]; ok {
+									return v, true
+								}
+								return fr.val(call.Call.Args[0], st), true
+							}
+						}
+					}
+				}
+			}
+		}
 		if strings.HasPrefix(name, "$i#") {
 			// $i#N: iterations completed by the range loop with ordinal N (an enclosing loop)
 			if n, err := strconv.Atoi(name[len("$i#"):]); err == nil {
